@@ -1938,6 +1938,19 @@ def _run_sshsig_model(case) -> CaseResult:
     nontrivial = False
     deferred: List[Violation] = []
 
+    allowed_arg: Any = allowed
+
+    if case.get('via_obj'):
+        # one allowed-signers object asked again and again (what an
+        # application checking many signatures keeps around): each answer
+        # is for the instant at which it is asked
+        try:
+            allowed_arg = asyncssh.import_allowed_signers(
+                allowed.decode('utf-8'))
+            labels.add('allowed-signers-object-reused')
+        except ValueError:
+            allowed_arg = allowed
+
     with patched_clock() as clock:
         # 1. the model decides, for each query principal and instant
         best = None
@@ -1947,7 +1960,7 @@ def _run_sshsig_model(case) -> CaseResult:
 
             for principal in case['queries']:
                 exp, why = authorised(case, keys, principal, now)
-                got = sig_validate(data, out, principal, allowed, **kw)
+                got = sig_validate(data, out, principal, allowed_arg, **kw)
                 labels.add('auth:' + why)
 
                 if got is None:
@@ -2181,6 +2194,7 @@ def sshsig_strategy_for(kts, names, ns_pool, ns_pats, pats, keygen=False):
                 'mask': [draw(st.integers(0, 254)), draw(st.integers(0, 254))],
                 'msg_pos': draw(st.lists(st.integers(0, 1000), max_size=3)),
                 'stride': draw(st.integers(3, 9)),
+                'via_obj': False if keygen else draw(st.booleans()),
                 'tz': None if keygen else
                 draw(pick([None, 'UTC0', 'PST8', 'JST-9', 'XXX-5:30']))}
 
@@ -2716,7 +2730,8 @@ FAMILIES = [
                              'keyword-case', 'value-extends-pattern',
                              'auth:no-ca-entry', 'edit:bytes',
                              'edit:namespace', 'edit:hash', 'edit:message',
-                             'is-hashed', 'junk-lines']}),
+                             'is-hashed', 'junk-lines',
+                             'allowed-signers-object-reused']}),
     Family('keygen-sshsig', run_keygen_sshsig,
            strategy=keygen_sshsig_strategy,
            budget={'quick': 64, 'thorough': 1500},
